@@ -45,9 +45,31 @@ def build(d, b):
                          stored=stored, fnames=fnames, writer=('lib' if sum(ids) % 2 else 'raw'), aperture_dependent=(b['na'] > 1))
     else:
         ids = b['list']
-        pw.build_cube(d, [NAMES[i] for i in ids], wav, aps, lambda m, a, w: float(Fl(ids[m], a + 1, ng - w)),
-                      lambda m, a, w: float(Er(ids[m], a + 1, ng - w)), order=b['stored'][0], aperture_dependent=(b['na'] > 1),
-                      table_names=[NAMES[i] for i in b['tab']])
+        # the cube may store its fluxes in Jy instead of mJy (values scaled accordingly: same physical SEDs)
+        cunit, cfac = ('Jy', 1e-3) if b['stored'][1] == 'asc' else ('mJy', 1.0)
+        pw.build_cube(d, [NAMES[i] for i in ids], wav, aps, lambda m, a, w: cfac * float(Fl(ids[m], a + 1, ng - w)),
+                      lambda m, a, w: cfac * float(Er(ids[m], a + 1, ng - w)), order=b['stored'][0], aperture_dependent=(b['na'] > 1),
+                      table_names=[NAMES[i] for i in b['tab']], flux_unit=cunit)
+
+
+def history_between(d):
+    """fit one source with the single filter convolved so far and list its parameters (post-processing reads and
+    sorts the parameter table); nothing of this may influence what a later convolution writes"""
+    from astropy import units as u
+    from sedfitter import fit, write_parameters
+    data = os.path.join(d, 'hist_data.txt')
+    with open(data, 'w') as f:
+        f.write('h 0 0 1 2.0e14 2.0e13\n')
+    out = os.path.join(d, 'hist.fitinfo')
+    law = fw.make_extinction([3], [12.0 / 4.5])
+    try:
+        fit(data, ['fA'], np.array([1.0]) * u.arcsec, d, out, n_data_min=1, extinction_law=law, av_range=(0.0, 3.0),
+            distance_range=np.array([1.0, 2.0]) * u.kpc, output_format=('A', 0))
+        write_parameters(out, os.path.join(d, 'hist_pars.txt'), select_format=('A', 0))
+    finally:
+        for p in (data, out, os.path.join(d, 'hist_pars.txt')):
+            if os.path.exists(p):
+                os.remove(p)
 
 
 def filters():
@@ -91,7 +113,14 @@ def replay_chunk(items, root, seed):
             build(d, b)
             try:
                 with fw.quiet():
-                    convolve_model_dir(d, filters(), memmap=bool(bi % 2))
+                    if bi % 3 == 1:
+                        # a history: one filter, then a fit and a parameter listing on the same package, then the other
+                        fs = filters()
+                        convolve_model_dir(d, fs[:1], memmap=bool(bi % 2))
+                        history_between(d)
+                        convolve_model_dir(d, fs[1:], memmap=bool(bi % 2))
+                    else:
+                        convolve_model_dir(d, filters(), memmap=bool(bi % 2))
                 refused = False
             except ValueError as e:
                 refused = 'do not match' in str(e)
